@@ -31,6 +31,8 @@ func allKindsFields() defMap {
 	}
 	// a field whose json tag carries an option: for this library the whole tag is the name
 	f[optName] = jDef{Kind: "attr", K: "string"}
+	// an attribute called "type" (only "id" is reserved for fields)
+	f["type"] = jDef{Kind: "attr", K: "string"}
 	return f
 }
 
@@ -592,6 +594,20 @@ func runFeed(c feedCase) feedEvent {
 		ev.Cls = "json"
 	}
 	schema := akSchema(c.Impl)
+	if c.Origin == "after-removal" {
+		// a schema of its own that held a spare type, served payloads of it, and lost it again: what
+		// the schema holds when the call is made decides, whatever was looked up before
+		schema = buildAkSchema(c.Impl, true)
+		spare := `{"type":"aa0","id":"h1"}`
+		for _, pl := range []string{spare, `[` + spare + `]`, `{"data":` + spare + `}`, `{"data":null,"included":[` + spare + `]}`} {
+			catch(func() { _, _ = jsonapi.UnmarshalResource([]byte(pl), schema) })
+			catch(func() { _, _ = jsonapi.UnmarshalPartialResource([]byte(pl), schema) })
+			catch(func() { _, _ = jsonapi.UnmarshalCollection([]byte(pl), schema) })
+			catch(func() { _, _ = jsonapi.UnmarshalDocument([]byte(pl), schema) })
+			catch(func() { _, _ = jsonapi.UnmarshalIdentifier([]byte(pl), schema) })
+		}
+		schema.RemoveType("aa0")
+	}
 	var (
 		err      error
 		hasRes   bool
@@ -1255,6 +1271,36 @@ func codecOtherModes(mode string, rng *rand.Rand, stt *stats, w *evWriter, n int
 		for _, b := range tiny {
 			for _, entry := range feedEntries {
 				emit("soft", entry, "tiny", b)
+			}
+		}
+		// payloads of a type that the schema held, served, and lost again
+		for _, impl := range []string{"soft", "wrap"} {
+			spare := `{"type":"aa0","id":"h1"}`
+			for _, pl := range []string{spare, `[` + spare + `]`, `{"data":` + spare + `}`, `{"data":[` + spare + `]}`,
+				`{"data":null,"included":[` + spare + `]}`, `[` + spare + `,` + spare + `]`} {
+				for _, entry := range feedEntries {
+					emit(impl, entry, "after-removal", []byte(pl))
+				}
+			}
+		}
+		// large collections (40, 64 and 200 members), sound ones and ones with a member of an unknown
+		// type in the middle: however the members are worked through, each of them is
+		for _, n := range []int{32, 40, 64, 200} {
+			for _, bad := range []int{-1, n / 2, 0} {
+				var members []string
+				for i := 0; i < n; i++ {
+					typ := "ak3"
+					if i == bad {
+						typ = "nope"
+					}
+					members = append(members, fmt.Sprintf(`{"type":"%s","id":"m%d","attributes":{"t":"v%d"}}`, typ, i, i))
+				}
+				arr := "[" + strings.Join(members, ",") + "]"
+				for _, pl := range []string{arr, `{"data":` + arr + `}`, `{"data":null,"included":` + arr + `}`} {
+					for _, entry := range []string{"UnmarshalCollection", "UnmarshalDocument", "NewRequestPOST"} {
+						emit("soft", entry, "large", []byte(pl))
+					}
+				}
 			}
 		}
 		deep := []byte(strings.Repeat(`{"data":`, 3000) + "1" + strings.Repeat("}", 3000))
